@@ -208,6 +208,99 @@ theorem step_holds (c : Cfg) (g : Glob) (w : World) (st : St) (img : List Nat) (
       rfl
     · simp only [hf]; rfl
 
+/-- an accepted Discover under ANY platform behaviour: at most one transmit, and it decodes as a Hello -/
+theorem accepted_at_most_one (c : Cfg) (g : Glob) (w : World) (st : St) (img : List Nat) (hc : CfgOk c) (hd : isDiscover img = true)
+    (hacc : mapperMatches st (LLTD.fRealSrc img) = true) :
+    (sends (obsOf c g img (parseFrameSt c g w st img).fx).fx).length ≤ 1 ∧
+    (helloReplies (obsOf c g img (parseFrameSt c g w st img).fx).fx).length = (sends (obsOf c g img (parseFrameSt c g w st img).fx).fx).length := by
+  by_cases hm : (w.malloc c.mtuEff).2 = true
+  · have hw : (sends (obsOf c g img (parseFrameSt c g w st img).fx).fx).length = 1 ∧
+        (helloReplies (obsOf c g img (parseFrameSt c g w st img).fx).fx).length = 1 := by
+      obtain ⟨hl, htos, hop⟩ := (isDiscover_iff img).mp hd
+      have h1 : (LLTD.fRealSrc img).length = 6 := slice_length _ _ _ (by simp; omega)
+      have h2 : (LLTD.fEthSrc img).length = 6 := slice_length _ _ _ (by simp; omega)
+      have hfx := (answerHello_fx c g w (preStep st img) img hc hl hm).1
+      rw [helloGen_preStep] at hfx
+      have hsends : sends (obsOf c g img (parseFrameSt c g w st img).fx).fx =
+          [helloFrame c g (LLTD.fDiscGen img) (LLTD.fTos img) (LLTD.fRealSrc img) (LLTD.fEthSrc img)] := by
+        rw [parseFrameSt_discover c g w st img htos hop, if_pos hacc]
+        unfold obsOf
+        split
+        · simp only [hfx]; rfl
+        · simp only [hfx]; rfl
+      unfold helloReplies
+      rw [hsends]
+      simp [decodeHello_helloFrame c g _ _ _ _ hc h1 h2]
+    omega
+  · have hm' : (w.malloc c.mtuEff).2 = false := by cases h : (w.malloc c.mtuEff).2 <;> simp_all
+    obtain ⟨_, htos, hop⟩ := (isDiscover_iff img).mp hd
+    have hfx := answerHello_fx_fail c g w (preStep st img) img hm'
+    have hsends : sends (obsOf c g img (parseFrameSt c g w st img).fx).fx = [] := by
+      rw [parseFrameSt_discover c g w st img htos hop, if_pos hacc]
+      unfold obsOf
+      split
+      · simp only [hfx]; rfl
+      · simp only [hfx]; rfl
+    unfold helloReplies
+    rw [hsends]
+    simp
+
+/-- one step of the relaxed predicate, for EVERY platform behaviour (allocations and transmits refused in any pattern) -/
+theorem step_holds_any (c : Cfg) (g : Glob) (w : World) (st : St) (img : List Nat) (s : SpecSt) (hc : CfgOk c)
+    (hr : Rel st s.mapper) : holdsC05RxF s (obsOf c g img (parseFrameSt c g w st img).fx) = true := by
+  unfold holdsC05RxF
+  have hfr : (obsOf c g img (parseFrameSt c g w st img).fx).frame = img := rfl
+  rw [hfr]
+  by_cases hd : isDiscover img = true
+  · simp only [hd, Bool.not_true, Bool.false_eq_true, if_false]
+    rcases hr with h | h
+    · rw [h]
+    · rw [h]
+      unfold absS
+      by_cases hk : st.known = true
+      · simp only [hk, if_true]
+        by_cases hq : (Spec.fRealSrc img == st.mapperReal) = true
+        · have hacc : mapperMatches st (LLTD.fRealSrc img) = true := by
+            unfold mapperMatches; rw [spec_fRealSrc] at hq; simp [hk, eq_of_beq hq]
+          have := accepted_at_most_one c g w st img hc hd hacc
+          simp [hq, this.1, this.2]
+        · have hrej : mapperMatches st (LLTD.fRealSrc img) = false := by
+            unfold mapperMatches
+            rw [spec_fRealSrc] at hq
+            simp only [hk, Bool.not_true, Bool.false_or]
+            cases hqq : (st.mapperReal == LLTD.fRealSrc img) with
+            | false => rfl
+            | true => exact absurd (by rw [eq_of_beq hqq]; exact beq_self_eq_true _) hq
+          simp [hq, refused_no_send c g w st img hd hrej]
+      · have hacc : mapperMatches st (LLTD.fRealSrc img) = true := by unfold mapperMatches; simp [hk]
+        have := accepted_at_most_one c g w st img hc hd hacc
+        simp [hk, this.1, this.2]
+  · simp only [hd, Bool.not_false, if_true]
+    by_cases hf : (decide (img.length ≥ 32) && decide (Spec.fTos img ≥ 2)) = true
+    · simp only [hf, if_true]
+      simp only [Bool.and_eq_true, decide_eq_true_eq] at hf
+      have : 2 ≤ LLTD.fTos img := by rw [← spec_fTos]; exact hf.2
+      rw [foreign c g w st img this]
+      rfl
+    · simp only [hf]; rfl
+
+/-- THE HISTORY THEOREM FOR EVERY PLATFORM BEHAVIOUR: whatever allocations and transmits are refused along the way, no stranger is
+    ever answered, the mapper gets at most one frame per Discover and it is a Hello, and who the mapper is follows the
+    specification (a Hello that could not be built still makes its addressee the mapper) -/
+theorem history_any (c : Cfg) (g : Glob) (own : List Nat) (hc : CfgOk c) (hm : c.failMtu = false) (imgs : List (List Nat))
+    (himgs : ∀ img ∈ imgs, ImgOk img) (w : World) (st : St) (s : SpecSt) (hr : Rel st s.mapper) :
+    (specStatesDom own 300 s (runObs c g w st imgs)).all (fun p => holdsC05RxF p.1 p.2) = true := by
+  induction imgs generalizing w st s with
+  | nil => rfl
+  | cons img rest ih =>
+    have him := himgs img (by simp)
+    simp only [runObs, specStatesDom, List.all_cons, Bool.and_eq_true]
+    refine ⟨step_holds_any c g w st img s hc hr, ?_⟩
+    apply ih (fun i hi => himgs i (by simp [hi]))
+    have hfr : (obsOf c g img (parseFrameSt c g w st img).fx).frame = img := rfl
+    rw [hfr, spec_mapper own 300 _ s img _ him.len]
+    exact rel_step c g w st img s.mapper hc hm hr
+
 /-- THE HISTORY THEOREM — for every frame history and every pattern of refused transmits (only allocations must succeed:
     a Hello that cannot be built is not sent) -/
 theorem history (c : Cfg) (g : Glob) (own : List Nat) (hc : CfgOk c) (hm : c.failMtu = false) (imgs : List (List Nat))
@@ -230,6 +323,9 @@ theorem history_fresh (c : Cfg) (g : Glob) (hc : CfgOk c) (hm : c.failMtu = fals
     (himgs : ∀ img ∈ imgs, ImgOk img) (w : World) (hw : NoMFault w) :
     holdsC05 c.mac (runObs c g w {} imgs) = true :=
   history c g c.mac hc hm imgs himgs w {} {} hw (rel_abs _ _ rfl)
+
+/-- non-vacuity of `history_any`: with every allocation refused an accepted Discover sends nothing, and the relaxed clause holds -/
+example : holdsC05RxF { mapper := .none } { cfg := {}, glob := {}, frame := List.replicate 15 0 ++ [0, 0, 0] ++ List.replicate 42 0, fx := [] } = true := by decide
 
 /-- non-vacuity: a platform that refuses EVERY transmit meets the hypothesis of `history` -/
 example : NoMFault { failSendAll := true, failSend := [1, 2, 3] } := ⟨rfl, rfl⟩
